@@ -72,7 +72,8 @@ def run(ck):
     # 2. impl -> spec
     trace = f"{ck.work}/trace.ndjson"
     runs, ops, ln = (3, 250, 40) if ck.quick else (8, 500, 120)
-    args = ["record", "store", "--seed", ck.seed, "--out", trace, "--runs", runs, "--ops", ops, "--len", ln]
+    args = ["record", "store", "--seed", ck.seed, "--out", trace, "--runs", runs, "--ops", ops, "--len", ln,
+            "--stress", 400 if ck.quick else 4000]
     if not ck.quick:
         args += ["--redb-file", ck.work]
     s = ck.harness(hb, args, "record", timeout=3000)
